@@ -133,6 +133,37 @@ fn families(thorough: bool) -> Vec<Prog> {
             names: with_names(&["mk", "a", "b"]),
         });
     }
+    // ---- 2b. a body that runs several times gets a fresh scope every time: a use that
+    //          textually precedes the re-declaration in the same body means the enclosing name
+    //          in every iteration, and so does a closure created there
+    let repeaters: [(&str, &str); 4] = [
+        ("loop", "loop { k += 1; BODY; if *k >= 3 { break } }"),
+        ("while", "while *k < 3 { k += 1; BODY }"),
+        ("for", "for q in [1, 2, 3]~ { k += 1; BODY }"),
+        ("while-set", "cnt := mut 0; nx := () -> any { cnt += 1; if *cnt <= 3 { return *cnt }; return () }; while q: int = nx() { k += 1; BODY }"),
+    ];
+    for (rname, rtext) in repeaters {
+        for n in &names {
+            for (use_n, fam) in [(n.to_string(), "use before redeclaration"), (format!("(() -> any {{ return {n} }})()"), "closure before redeclaration")] {
+                let body = format!("seen += [{use_n}]; {n} := *k * 10; seen += [{n}]");
+                // at top level: the enclosing name is a run-time value
+                let mut stmts = pre(vec![format!("{n} := id(1)"), "seen := mut [any] []".into(), "k := mut 0".into()]);
+                stmts.push(rtext.replace("BODY", &body));
+                stmts.push(format!("(*seen, {n})"));
+                let mut nm: Vec<&str> = vec![n, "seen", "k"];
+                if rname == "while-set" {
+                    nm.extend(["cnt", "nx"]);
+                }
+                out.push(Prog { family: format!("{fam} in {rname} body"), stmts, expected: Some("([1, 10, 1, 20, 1, 30], 1)".into()), names: with_names(&nm) });
+                // inside a function: the enclosing name is a parameter
+                let stmts = pre(vec![
+                    format!("f := ({n}: int) -> any {{ seen := mut [any] []; k := mut 0; {}; return (*seen, {n}) }}", rtext.replace("BODY", &body)),
+                    "f(1)".into(),
+                ]);
+                out.push(Prog { family: format!("{fam} in {rname} body of a function"), stmts, expected: Some("([1, 10, 1, 20, 1, 30], 1)".into()), names: with_names(&["f"]) });
+            }
+        }
+    }
     // ---- 3. recursion by declared name from every call path
     let rec = "rec := (n: int) -> int { if n <= 0 { return 0 }; return n + rec(n - 1) }";
     for (call, want) in [
@@ -374,6 +405,64 @@ fn run(stmts: &[String], batch: bool, check_names_each_step: Option<(&[String], 
     Got::Value(last, names)
 }
 
+/// A function value called by the host *inside the caller's interpreter*
+/// (`create_call(..).exec_unscoped(&mut interp)`, what the interactive shell does) declares
+/// nothing there: its own name, its parameters and its locals stay its own, and names of
+/// the caller that are spelled the same keep their values.
+fn host_call_isolation(thorough: bool) -> (u64, Vec<Violation>) {
+    use simplesl::variable::Variable;
+    let names: Vec<&str> = if thorough { NAMES.to_vec() } else { NAMES[..6].to_vec() };
+    let mut out = Vec::new();
+    let mut n_cases = 0u64;
+    for n in names {
+        let bodies = [
+            ("parameter and local", format!("f := ({n}: int) -> int {{ loc := {n} * 2; return loc }}"), vec![Variable::Int(7)], "14"),
+            ("local spelled like a caller name", format!("f := (q: int) -> int {{ {n} := q * 2; keep := {n} + 1; return keep }}"), vec![Variable::Int(7)], "15"),
+            ("block, loop and match locals", format!("f := (q: int) -> int {{ r := mut 0; for {n} in [1, 2]~ {{ r += {n} }}; m := match q {{ {n}: int => {n}, }}; return *r + m }}"), vec![Variable::Int(7)], "10"),
+            ("recursive by its own name", format!("f := ({n}: int) -> int {{ if {n} <= 0 {{ return 0 }}; return {n} + f({n} - 1) }}"), vec![Variable::Int(3)], "6"),
+        ];
+        for (what, def, args, want) in bodies {
+            n_cases += 1;
+            let setup = vec![format!("{n} := \"caller\""), "keep := \"kept\"".to_string(), def.clone()];
+            let mut interp = Interpreter::with_stdlib();
+            let mut ok = true;
+            for inp in &setup {
+                let r = guard(|| Code::parse(&interp, inp).map(|c| c.exec_unscoped(&mut interp)));
+                if !matches!(r, Ok(Ok(Ok(_)))) {
+                    ok = false;
+                }
+            }
+            let detail = json!({"kind": "host_call_unscoped", "setup": setup, "call": format!("f({})", args.iter().map(canon).collect::<Vec<_>>().join(", ")), "expected_result": want});
+            let f = match interp.get_variable("f") {
+                Some(Variable::Function(f)) if ok => f.clone(),
+                _ => {
+                    out.push(Violation { sig: format!("C06|host-call|setup-fails|{what}"), detail });
+                    continue;
+                }
+            };
+            let before: BTreeSet<String> = interp.verif_names().iter().map(|s| s.to_string()).collect();
+            let got = match guard(|| f.clone().create_call(args.clone()).map(|c| c.exec_unscoped(&mut interp))) {
+                Ok(Ok(Ok(v))) => canon(&v),
+                other => format!("{:?}", other.map(|r| r.map(|x| x.map(|v| canon(&v))))),
+            };
+            let after: BTreeSet<String> = interp.verif_names().iter().map(|s| s.to_string()).collect();
+            let caller_n = interp.get_variable(n).map(canon).unwrap_or_else(|| "<missing>".into());
+            let caller_keep = interp.get_variable("keep").map(canon).unwrap_or_else(|| "<missing>".into());
+            let f_still = matches!(interp.get_variable("f"), Some(Variable::Function(g)) if std::sync::Arc::ptr_eq(g, &f));
+            if got != want {
+                out.push(Violation { sig: format!("C06|host-call|wrong-result|{what}"), detail: json!({"case": detail, "observed": got}) });
+            }
+            if before != after || caller_n != "\"caller\"" || caller_keep != "\"kept\"" || !f_still {
+                out.push(Violation {
+                    sig: format!("C06|host-call|callee-names-reach-the-caller|{what}"),
+                    detail: json!({"case": detail, "names_before": before, "names_after": after, "caller_name_after": caller_n, "keep_after": caller_keep, "f_unchanged": f_still}),
+                });
+            }
+        }
+    }
+    (n_cases, out)
+}
+
 #[derive(Default)]
 struct Acc {
     programs: u64,
@@ -448,7 +537,10 @@ pub fn run_check(tier: &str) -> i32 {
     samples.push(|| json!({"family": progs[k].family, "statements": progs[k].stmts, "expected": progs[k].expected}));
     let Acc { programs, runs, must_reject, outcomes, violations } = acc;
     report.violations(violations);
+    let host = core::on_big_stack(move || host_call_isolation(thorough));
+    report.violations(host.1);
     let coverage = json!({
+        "host_calls_run_inside_the_callers_interpreter": host.0,
         "states": programs,
         "transitions": runs,
         "traces_validated_against_impl": runs,
